@@ -648,6 +648,247 @@ def stream_download(ctx, n):
         ctx.sample({'stream': 'download', 'plan': {k: v for k, v in plans[0].items()}})
 
 
+# ------------------------------------------------------------------ several fetches on one client: what an earlier one leaves behind
+FILES = {b'/dir/f.bin': bytes(range(256)) * 4, b'/dir/other.bin': b'O' * 700, b'/dir/big.bin': b'B' * 9000}
+
+
+class HonestFtp(FtpServer):
+    """A server that follows the protocol to the letter and never hangs up: one reply per command; after RETR the 150,
+    and the closing reply (226, or 426 when the data connection broke) once the data connection has ended.  It notes
+    every (command, reply) pair per control connection."""
+
+    def __init__(self, net, world):
+        FtpServer.__init__(self, net)
+        self.world = world
+        self.cwd = b'/'
+
+    def handle(self, conn, line):
+        verb, _, arg = line.partition(b' ')
+        verb = verb.upper()
+        self.world['log'].append((id(conn) % 10000, line))
+        if verb == b'CWD':
+            self.cwd = arg if arg.startswith(b'/') else self.cwd.rstrip(b'/') + b'/' + arg
+            conn.send(b'250 ok\r\n')
+        elif verb == b'SIZE':
+            name = arg if arg.startswith(b'/') else self.cwd.rstrip(b'/') + b'/' + arg
+            conn.send(b'213 %d\r\n' % len(FILES[name]) if name in FILES else b'550 no\r\n')
+        elif verb == b'RETR':
+            name = arg if arg.startswith(b'/') else self.cwd.rstrip(b'/') + b'/' + arg
+            if name not in FILES:
+                conn.send(b'550 no\r\n')
+                return
+            self.world['transfer'] = (conn, FILES[name])
+            conn.send(b'150 here\r\n')
+            self._wake()
+        elif verb in (b'LIST', b'MLSD'):
+            listing = (b'type=file;size=1024; f.bin\r\ntype=file;size=700; other.bin\r\ntype=file;size=9000; big.bin\r\n' if verb == b'MLSD' else
+                       b'-rw-r--r-- 1 u g 1024 Jan 01 2020 f.bin\r\n-rw-r--r-- 1 u g 700 Jan 01 2020 other.bin\r\n-rw-r--r-- 1 u g 9000 Jan 01 2020 big.bin\r\n')
+            self.world['transfer'] = (conn, listing)
+            self.world['listing'] = True
+            conn.send(b'150 here\r\n')
+            self._wake()
+        else:
+            FtpServer.handle(self, conn, line)
+
+    def _wake(self):
+        w = self.world.get('data_waiting')
+        if w is not None and not w.done():
+            w.set_result(None)
+
+
+def sequence_once(steps, seed):
+    """Run the fetches of `steps` one after the other on ONE ftp Client / connection pool.  Each step: (how, name):
+    how = 'ok' (whole download), 'data-reset' (the server's data connection is reset half way: NetworkError),
+    'session-timeout' (the transfer is slower than the session's time limit), 'listener' (a listener raises when the
+    transfer begins), 'hook-finish' / 'hook-retry' (the fetch runs in the real FTPProcessor and the pre-response
+    hook of a script says FINISH / RETRY).  Returns the outcome of every step."""
+    import io
+    import os
+    import shutil
+    import tempfile
+    import types
+    from wpull.protocol.ftp.client import Client, Session as _S
+    from wpull.protocol.ftp.request import Request
+    from wpull.network.pool import ConnectionPool
+
+    world = {'log': [], 'mode': 'ok'}
+    feeders = []
+
+    class Data:
+        async def serve(self, conn):
+            while 'transfer' not in world:
+                if conn.client_closed:
+                    return
+                world['data_waiting'] = asyncio.get_event_loop().create_future()
+                conn.handler.on_close = lambda c: world['data_waiting'].done() or world['data_waiting'].set_result(None)
+                await world['data_waiting']
+            control, body = world.pop('transfer')
+            mode = 'ok' if world.pop('listing', False) else world['mode']      # the processor's directory probe is served plainly
+            half = len(body) // 2
+            if mode == 'data-reset':
+                conn.send(body[:half])
+                await asyncio.sleep(0)
+                conn.reset()
+                closing = b'426 Connection closed; transfer aborted\r\n'
+            elif mode == 'session-timeout':
+                conn.send(body[:half])
+                await asyncio.sleep(0.06)          # real time: longer than the session's limit
+                conn.send(body[half:])
+                conn.close()
+                closing = b'226 Transfer complete\r\n'
+            else:
+                for k in range(0, len(body), 1000):
+                    conn.send(body[k:k + 1000])
+                    await asyncio.sleep(0)
+                conn.close()
+                closing = b'226 Transfer complete\r\n'
+            for _ in range(3):
+                await asyncio.sleep(0)
+            if not control.client_closed:
+                control.send(closing)
+
+    async def one(client, how, name, tmp):
+        world['mode'] = how
+        request = Request('ftp://h/dir/' + name)
+        out = io.BytesIO()
+        if how in ('hook-finish', 'hook-retry'):
+            from wpull.pipeline.item import URLRecord
+            from wpull.pipeline.session import ItemSession
+            from wpull.processor.ftp import FTPProcessor, FTPProcessorFetchParams
+            from wpull.processor.rule import FetchRule, ResultRule
+            from wpull.application.hook import Actions
+            from wpull.application.plugin import PluginFunctions
+            from wpull.stats import Statistics
+            from wpull.waiter import LinearWaiter
+            from wpull.writer import NullWriter
+            from wpull.urlfilter import DemuxURLFilter
+            rule = ResultRule(waiter=LinearWaiter(wait=0, max_wait=0), statistics=Statistics())
+            rule.hook_dispatcher.connect(PluginFunctions.handle_pre_response,
+                                         lambda item_session: Actions.FINISH if how == 'hook-finish' else Actions.RETRY)
+
+            class _T:
+                def __getattr__(self, n):
+                    return lambda *a, **k: None
+            factory = {'FileWriter': NullWriter(), 'FetchRule': FetchRule(url_filter=DemuxURLFilter([])), 'ResultRule': rule, 'URLTable': _T()}
+            r = URLRecord()
+            r.url, r.parent_url, r.root_url, r.level, r.inline_level, r.try_count = request.url_info.url, None, None, 0, None, 0
+            r.post_data = r.status_code = r.filename = None
+            r.priority, r.link_type = 0, None
+            item = ItemSession(types.SimpleNamespace(factory=factory, root_path=tmp), r)
+            proc = FTPProcessor(client, FTPProcessorFetchParams(glob=False))
+            coro = compat._ensure(proc.process(item))
+
+            async def run_it():
+                await coro
+                return ('processed',)
+        else:
+            session = client.session()
+
+            async def run_it():
+                with session:
+                    if how == 'listener':
+                        def boom(*a, **k):
+                            raise OSError(28, 'listener failed')
+                        session.event_dispatcher.add_listener(_S.Event.begin_transfer, boom)
+                    await compat._ensure(session.start(request))
+                    resp = await compat._ensure(session.download(out, duration_timeout=0.02 if how == 'session-timeout' else None))
+                    return ('complete', out.getvalue(), resp.reply.code)
+        task = asyncio.ensure_future(run_it())
+        done = await fakenet.settle(task, feeders, extra=400)
+        for _ in range(6):
+            if done:
+                break
+            await asyncio.sleep(0.03)
+            done = await fakenet.settle(task, feeders, extra=100)
+        if not done:
+            task.cancel()
+            try:
+                await task
+            except BaseException:
+                pass
+            return ('stalled',)
+        try:
+            return task.result()
+        except Exception as e:
+            return ('exc', classify_exc(e))
+
+    async def go(tmp):
+        net = fakenet.FakeNet()
+        net.feeders = feeders
+        net.listen('10.0.0.1', 21, lambda: HonestFtp(net, world))
+        net.listen('10.0.0.1', 2020, Data)
+        with net:
+            client = Client(connection_pool=ConnectionPool(resolver=fakenet.FakeResolver()))
+            results = []
+            marks = []
+            for how, name in steps:
+                marks.append(len(world['log']))
+                results.append(await one(client, how, name, tmp))
+                await asyncio.sleep(0.08 if how == 'session-timeout' else 0)     # the late closing reply of a given-up transfer arrives
+                for _ in range(20):
+                    await asyncio.sleep(0)
+            # which control connection each fetch used first, and whether an earlier fetch had used it
+            seen, fresh = set(), []
+            for k, m in enumerate(marks):
+                own = world['log'][m:marks[k + 1] if k + 1 < len(marks) else None]
+                cid = own[0][0] if own else None
+                fresh.append(cid not in seen)
+                seen.update(c for c, _ in own)
+            results.append(fresh)
+            return results
+    tmp = tempfile.mkdtemp(prefix='wpull-verif-c17-')
+    cwd = os.getcwd()
+    os.chdir(tmp)
+    try:
+        return arun(go(tmp))
+    finally:
+        os.chdir(cwd)
+        shutil.rmtree(tmp, ignore_errors=True)
+
+
+PRIOR_KINDS = ['ok', 'data-reset', 'session-timeout', 'listener', 'hook-finish', 'hook-retry']
+
+
+def judge_sequence(ctx, steps, seed):
+    res = sequence_once(steps, seed)
+    fresh = res.pop()
+    case = {'stream': 'sequence', 'steps': [list(x) for x in steps], 'seed': seed}
+    # the model: a fetch left by an exception loses its control connection, a completed one leaves it pooled
+    # (every way out of an unfinished fetch is an exception, the processor's hook break included)
+    rep = ctx.model.ask(['ftp fetches ' + ''.join('N' if h == 'ok' else 'R' for h, _ in steps)])[0]
+    real = ''.join('T' if f else 'F' for f in fresh)
+    if rep != real:
+        ctx.disagree('sequence', case, rep, real)
+    ctx.case(('sequence', repr(steps)), tags=['sequence:' + '+'.join(h for h, _ in steps[:-1])])
+    last = res[-1]
+    name = steps[-1][1]
+    want = ('complete', FILES[('/dir/' + name).encode()], 226)
+    if last != want:
+        ctx.fail('reply-of-another-command', 'next-session', case,
+                 'after the fetches %s on the same client an ordinary download of %s from a server that follows the protocol ended as %r '
+                 '(on its own: a complete transfer, 226, %d bytes)' % ([h for h, _ in steps[:-1]], name, last[:1] + last[2:], len(want[1])))
+    for (how, nm), r in zip(steps[:-1], res[:-1]):
+        if how == 'ok' and r != ('complete', FILES[('/dir/' + nm).encode()], 226):
+            ctx.fail('reply-of-another-command', 'next-session', case, 'an ordinary download in the middle of the sequence ended as %r' % (r[:1] + r[2:],))
+    return res
+
+
+def stream_sequence(ctx, n):
+    rng = ctx.subrng('sequence')
+    first = None
+    fixed = [[(k, 'other.bin'), ('ok', 'f.bin')] for k in PRIOR_KINDS] + [[(k, 'big.bin'), ('ok', 'big.bin')] for k in PRIOR_KINDS]
+    for i in range(n):
+        if i < len(fixed):
+            steps = fixed[i]
+        else:
+            steps = [(rng.choice(PRIOR_KINDS), rng.choice(['other.bin', 'f.bin', 'big.bin'])) for _ in range(rng.randint(1, 3))] + [('ok', rng.choice(['f.bin', 'big.bin']))]
+        seed = rng.randrange(1 << 30)
+        first = first or {'stream': 'sequence', 'steps': [list(x) for x in steps], 'seed': seed}
+        judge_sequence(ctx, [tuple(x) for x in steps], seed)
+    if first:
+        ctx.sample(first)
+
+
 def session_urls(byte_values):
     for b in byte_values:
         e = '%%%02X' % b
@@ -704,6 +945,8 @@ def replay(ctx, case, kind=None, where=None):
             alone, res = norm_(alone), norm_(res)
             if alone != res:
                 ctx.fail('reply-of-another-command', 'Session.abort', case, 'with the abandoned earlier fetch: %r; alone: %r' % (res[:1] + res[2:], alone[:1] + alone[2:]))
+    elif s == 'sequence':
+        judge_sequence(ctx, [tuple(x) for x in case['steps']], case['seed'])
     elif s == 'transfer':
         stream_transfer(ctx, [(case['data'], case['eof'], case['ctrl'])])
     else:
@@ -748,6 +991,7 @@ def run(ctx):
         tcases.append((dsegs, True if r < 0.65 else 'reset' if r < 0.85 else False, csegs))   # closed / RST / never closed
     stream_transfer(ctx, tcases)
     stream_download(ctx, ctx.scale(200, 4000))
+    stream_sequence(ctx, ctx.scale(40, 600))
     # session oracle: exhaustive single-byte injection
     for url in session_urls(range(256)):
         check_session(ctx, url, listing=False)
